@@ -517,6 +517,8 @@ func (x *Exec) fieldArr(st *State, styp types.Type, idx int) (string, Term, *typ
 	return name, x.heapGet(st, name, SArr(SInt, x.sortOf(f.Type()))), f
 }
 
+var subTagIDs map[string]int64
+
 // subRef is the reference of a struct embedded by value in another struct.
 func (x *Exec) subRef(styp types.Type, idx int, base Term) Term {
 	name, _ := x.fieldArrName(styp, idx)
@@ -524,7 +526,18 @@ func (x *Exec) subRef(styp types.Type, idx int, base Term) Term {
 	inv := x.d.Fun("subinv!"+name, []Sort{SInt}, SInt)
 	v := Term{"o", SInt}
 	root := x.d.Fun("subroot", []Sort{SInt}, SInt)
-	x.d.Axiom(Forall([]Term{v}, And(Eq(inv(f(v)), v), Lt(f(v), IntLit(0)), Eq(root(f(v)), Ite(Gt(v, IntLit(0)), v, root(v)))), []Term{f(v)}))
+	// sub-objects of different fields are different objects: each field has
+	// its own tag
+	tag := x.d.Fun("subtag", []Sort{SInt}, SInt)
+	if subTagIDs == nil {
+		subTagIDs = map[string]int64{}
+	}
+	id, ok := subTagIDs[name]
+	if !ok {
+		id = int64(len(subTagIDs) + 1)
+		subTagIDs[name] = id
+	}
+	x.d.Axiom(Forall([]Term{v}, And(Eq(inv(f(v)), v), Lt(f(v), IntLit(0)), Eq(root(f(v)), Ite(Gt(v, IntLit(0)), v, root(v))), Eq(tag(f(v)), IntLit(id))), []Term{f(v)}))
 	return f(base)
 }
 
